@@ -42,6 +42,7 @@ pub fn lower(src: &str, name: &str) -> tir::Tx {
 
 mod scen;
 mod c14;
+mod c02;
 
 fn main() {
     let which = std::env::args().nth(1).unwrap_or_default();
